@@ -310,8 +310,8 @@ def replay_slices(ctx, case):
     c15_slices.check_case(ctx, case)
 
 
-SUBS = [Sub("convert", run, replay_any, quick=12000, thorough=500000),
-        Sub("slices", run_slices, replay_slices, quick=60, thorough=1500,
+SUBS = [Sub("convert", run, replay_any, quick=12000, thorough=1250000),
+        Sub("slices", run_slices, replay_slices, quick=60, thorough=3750,
             shards=4),
-        Sub("large", run_large, replay_any, quick=120, thorough=3000,
+        Sub("large", run_large, replay_any, quick=120, thorough=7500,
             min_per_shard=8)]
